@@ -81,6 +81,15 @@ type lockWalker struct {
 	recv    string
 	fields  map[string]bool
 	methods map[string]bool
+	name    string
+	params  map[string]bool
+	notes   *[]string // informational: guarded state aliasing memory of the caller
+}
+
+func (w *lockWalker) note(what string) {
+	if w.notes != nil {
+		*w.notes = append(*w.notes, fmt.Sprintf("(%s, %s)", coqStr(w.name), coqStr(what)))
+	}
 }
 
 func seqCoq(items []string) string {
@@ -372,7 +381,18 @@ func (w *lockWalker) stmt(s ast.Stmt) string {
 			w.rhs(r, &ev)
 		}
 		opAssign := x.Tok != token.ASSIGN && x.Tok != token.DEFINE
-		for _, l := range x.Lhs {
+		for i, l := range x.Lhs {
+			if len(x.Rhs) == len(x.Lhs) {
+				if id, ok := stripParens(x.Rhs[i]).(*ast.Ident); ok && w.params[id.Name] {
+					base := stripParens(l)
+					if ix, ok := base.(*ast.IndexExpr); ok {
+						base = ix.X
+					}
+					if f, ok := w.recvField(base); ok && guardedRefFields[f] {
+						w.note("stores the parameter " + id.Name + " into the guarded field " + f + " without copying it")
+					}
+				}
+			}
 			w.lhs(l, opAssign, &ev)
 		}
 	case *ast.IncDecStmt:
@@ -396,6 +416,9 @@ func (w *lockWalker) stmt(s ast.Stmt) string {
 		return unk("defer", s)
 	case *ast.ReturnStmt:
 		for _, r := range x.Results {
+			if f, ok := w.recvField(r); ok && guardedRefFields[f] {
+				w.note("returns the guarded field " + f + " by reference (no copy)")
+			}
 			w.expr(r, &ev) // returning the cached signature is a read of the field
 		}
 		ev = append(ev, "Return")
@@ -592,9 +615,15 @@ func emitLockSkel(repo, outDir string) error {
 	}
 	fmt.Fprintf(&sb, "Definition lock_mutex_fields : list string := [%s].\n\n", strings.Join(q, "; "))
 	var entries []string
+	var aliasNotes []string
 	seen := map[string]bool{}
 	for _, m := range ms {
-		w := &lockWalker{recv: m.recv, fields: fields, methods: methods}
+		w := &lockWalker{recv: m.recv, fields: fields, methods: methods, name: m.name, params: map[string]bool{}, notes: &aliasNotes}
+		for _, f := range m.fd.Type.Params.List {
+			for _, n := range f.Names {
+				w.params[n.Name] = true
+			}
+		}
 		var body string
 		if m.recv == "" {
 			body = "SSkip"
@@ -649,6 +678,7 @@ func emitLockSkel(repo, outDir string) error {
 			})
 		}
 	}
+	fmt.Fprintf(&sb, "(* informational (not part of the lock discipline): places where the guarded state shares memory with the caller *)\nDefinition lock_alias_notes : list (string * string) :=\n  [%s].\n\n", strings.Join(aliasNotes, ";\n   "))
 	fmt.Fprintf(&sb, "(* calls of the unexported helpers from functions that are not methods of the two types *)\nDefinition lock_helper_calls_outside : list string := %s.\n", strList(outside))
 	writeIfChanged(filepath.Join(outDir, "LockSkel.v"), sb.String())
 	return nil
